@@ -163,7 +163,7 @@ func c17Tables(c *Ctx, p *Prog, m *Model) {
 		for _, b := range fn.Blocks {
 			for _, in := range b.Instrs {
 				if lk, isL := in.(*ssa.Lookup); isL {
-					if gg, isG := globalLoad(lk.X); isG && gg.Name() == "levelToString" && strip(lk.Index) == ssa.Value(fn.Params[0]) {
+					if gg, isG := globalLoad(lk.X); isG && nm(gg) == "levelToString" && strip(lk.Index) == ssa.Value(fn.Params[0]) {
 						ok = true
 					}
 				}
@@ -192,7 +192,7 @@ func c17Tables(c *Ctx, p *Prog, m *Model) {
 	if ut := p.Method(p.Slog, "Level", "UnmarshalText"); ut != nil {
 		ok := false
 		for _, cs := range callsIn(ut) {
-			if cal := calleeOf(cs); cal != nil && cal.Name() == "ParseLevel" && dependsOnParam(cs.Common().Args[0], ut.Params[1]) {
+			if cal := calleeOf(cs); cal != nil && nm(cal) == "ParseLevel" && dependsOnParam(cs.Common().Args[0], ut.Params[1]) {
 				for _, b := range ut.Blocks {
 					for _, in := range b.Instrs {
 						if st, isS := in.(*ssa.Store); isS && st.Addr == ssa.Value(ut.Params[0]) && dependsOn(st.Val, cs.Value()) {
@@ -272,7 +272,7 @@ func c17Marshal(c *Ctx, p *Prog, m *Model) {
 	feeds := false
 	if unqCall != nil {
 		for _, cs := range callsIn(uj) {
-			if cal := calleeOf(cs); cal != nil && (cal.Name() == "UnmarshalText" || cal.Name() == "ParseLevel") {
+			if cal := calleeOf(cs); cal != nil && (nm(cal) == "UnmarshalText" || nm(cal) == "ParseLevel") {
 				for _, a := range cs.Common().Args {
 					if dependsOn(a, unqCall.Value()) {
 						feeds = true
@@ -292,7 +292,7 @@ func c17Marshal(c *Ctx, p *Prog, m *Model) {
 	// MarshalJSON is based on MarshalText of the receiver
 	based := false
 	for _, cs := range callsIn(mj) {
-		if cal := calleeOf(cs); cal != nil && (cal.Name() == "MarshalText" || cal.Name() == "String") && cs.Common().Args[0] == ssa.Value(mj.Params[0]) {
+		if cal := calleeOf(cs); cal != nil && (nm(cal) == "MarshalText" || nm(cal) == "String") && cs.Common().Args[0] == ssa.Value(mj.Params[0]) {
 			based = true
 		}
 	}
@@ -304,7 +304,7 @@ func registryStoresIn(fn *ssa.Function) []GlobalStore {
 	var out []GlobalStore
 	for _, gs := range globalStores(fn) {
 		for _, n := range registryVars {
-			if gs.G.Name() == n {
+			if nm(gs.G) == n {
 				out = append(out, gs)
 			}
 		}
@@ -436,7 +436,7 @@ func c17Register(c *Ctx, p *Prog, m *Model) {
 						}
 					}
 				case *ssa.Lookup:
-					if g, ok := globalLoad(x.X); ok && g.Name() == "stringToLevel" && x.CommaOk {
+					if g, ok := globalLoad(x.X); ok && nm(g) == "stringToLevel" && x.CommaOk {
 						titleTest = true
 					}
 				}
@@ -462,7 +462,7 @@ func c17Register(c *Ctx, p *Prog, m *Model) {
 		key := "register:" + nd.table
 		var found *GlobalStore
 		for i := range all {
-			if all[i].G.Name() == nd.table {
+			if nm(all[i].G) == nd.table {
 				found = &all[i]
 			}
 		}
@@ -522,7 +522,7 @@ func c17Register(c *Ctx, p *Prog, m *Model) {
 				probs = append(probs, fmt.Sprintf("must be recorded exactly when %s, found guards %v", nd.cond, gds))
 			}
 		}
-		r.Check(len(probs) == 0, "R17.4", key, p.Pos(instrPos(found.Instr)), "recorded under the new level's value"+map[bool]string{true: " when " + nd.cond, false: ""}[nd.cond != ""], fn.Name()+": "+strings.Join(probs, "; "))
+		r.Check(len(probs) == 0, "R17.4", key, p.Pos(instrPos(found.Instr)), "recorded under the new level's value"+map[bool]string{true: " when " + nd.cond, false: ""}[nd.cond != ""], nm(fn)+": "+strings.Join(probs, "; "))
 	}
 }
 
@@ -537,7 +537,7 @@ func elemOfGlobal(v ssa.Value) (string, bool) {
 		return "", false
 	}
 	if g, ok := globalLoad(ia.X); ok {
-		return g.Name(), true
+		return nm(g), true
 	}
 	return "", false
 }
@@ -833,7 +833,7 @@ func c17Tags(c *Ctx, p *Prog, m *Model) {
 			}
 		case *ssa.Call:
 			if !isRepeatOf(x, length) {
-				if cal := calleeOf(x); cal == nil || cal.Name() != "String" {
+				if cal := calleeOf(x); cal == nil || nm(cal) != "String" {
 					probs = append(probs, "unexpected fallback result "+m.valDesc(x))
 					continue
 				}
